@@ -186,12 +186,12 @@ def run(ck):
         except Exception as e:  # noqa
             return ("err", err_class(e))
 
-    nseq = 160 if thorough else 22
+    nseq = ck.n(22, 160)
     cache_fresh = {}
     for si in range(nseq):
         sample = rng.choice(SAMPLES)
         objs = fresh(sample)
-        length = rng.randint(2, 14 if thorough else 8)
+        length = rng.randint(2, ck.n(8, 14))
         seq = rng.choices(queries, weights=weights, k=length)
         # a target query that differs from an earlier one in ONE cache-key component is the interesting pair
         history = []
